@@ -375,6 +375,20 @@ class SsbGraphMinimizer:
                             g.delete_edges(case_edge.index)
                         vs_to_delete.add(next_vertex)
                         next_vertex = else_edge_target_vertex
+                    # A default that consists only of a jump to the block of one of the cases (``default:`` written
+                    # together with a ``case`` label): the default leads where that jump leads.
+                    if (
+                        next_vertex is not None
+                        and isinstance(next_vertex["op"], SsbLabelJump)
+                        and next_vertex["op"].maybe_root is not None
+                        and next_vertex["op"].root.op_code.name == OP_JUMP
+                        and next_vertex.indegree() == 0
+                        and len(next_vertex.out_edges()) == 1
+                    ):
+                        jump_target = next_vertex.out_edges()[0].target_vertex
+                        if any(e["switch_ops"] is not None and e.target_vertex == jump_target for e in v.out_edges()):
+                            vs_to_delete.add(next_vertex)
+                            next_vertex = jump_target
                     # Else edge:
                     if next_vertex is not None:
                         v_else_edge = next(e for e in v.out_edges() if e["switch_ops"] is None)
